@@ -522,6 +522,12 @@ func (m *Machine) prepareCall(f *Frame, c *ssa.CallCommon) (value, []value) {
 		if recv.t == nil {
 			m.goPanicf("nil interface method call %s at %s", c.Method.Name(), m.posOf(m.curInstr))
 		}
+		if rt, isRT := recv.v.(reflType); isRT {
+			for _, a := range c.Args {
+				args = append(args, m.get(f, a))
+			}
+			return Func{native: m.reflTypeMethod(rt, c.Method.Name())}, args
+		}
 		sel := m.prog.MethodSets.MethodSet(recv.t).Lookup(c.Method.Pkg(), c.Method.Name())
 		if sel == nil {
 			abortf("method %s not found on %s", c.Method.Name(), recv.t)
@@ -709,6 +715,16 @@ func (m *Machine) returnValue(r value) {
 		caller.ip++
 	case fkDefer:
 		// caller re-executes its RunDefers instruction
+	case fkCont:
+		v := top.cont(m, r)
+		if v == value(pushedFrame) {
+			return
+		}
+		caller = &m.frames[len(m.frames)-1]
+		if top.retTo != nil {
+			m.set(caller, top.retTo, v)
+		}
+		caller.ip++
 	}
 }
 
